@@ -70,6 +70,27 @@ INFO = {
     "C17-m4": ("C17", "automatic PID assignment skips at most one used PID", ">= 2 explicit consecutive PIDs exactly at the next automatic PID, then an automatic Add"),
     "C19-m3": ("C19", "parsePacket returns before consulting the skipper for packets without payload", "a payload-less packet selected by the predicate (NextPacket returns it, predicate not called)"),
     "C19-m4": ("C19", "end-of-stream drain: break instead of continue on a parse error", "a failing PacketsParser on a unit flushed at end of stream with a pending unit on a higher PID"),
+    # round 3 (second pair for the ten properties that had only two; agents were told rounds 1-2 and asked for two-site / stateful slips)
+    "C03-m3": ("C03", "NextPacket keeps the packet buffer whose creation (size auto-detection) failed", "auto-detection failing on a hostile head (no second sync byte), then another call: packetSize 0 buffer → panic/spin"),
+    "C03-m4": ("C03", "supplementary audio extension descriptor: private-data test `<` became `!=`", "extension descriptor 0x7f/0x06 whose declared length is shorter than its fixed fields: negative NextBytes → makeslice panic"),
+    "C05-m3": ("C05", "automatic PID assignment skips at most one used PID (for → if)", ">= 2 consecutive explicit PIDs at the next automatic PID: the automatic Add lands on a PID in use and resets its counter"),
+    "C05-m4": ("C05", "cached PAT packet bumped in place; cache not rolled back with patCC on a failed WriteTables", "a failed WriteTables (invalid PCR PID / oversized PMT) between two successful ones: PAT counter repeats"),
+    "C07-m3": ("C07", "packet pool keyed by PID & 0x0fff", "two PIDs differing only by bit 12 interleaved in one stream"),
+    "C07-m4": ("C07", "shared payload pool grows to 2*size LENGTH instead of capacity", "an unbounded PES/PSI unit > 1 KiB as first big unit: delivered with trailing garbage depending on what other PIDs did before"),
+    "C08-m3": ("C08", "payload guard compares the payload offset with 188 instead of the buffer length", "192/204-byte packets whose adaptation field fills the packet: payload = the trailer bytes"),
+    "C08-m4": ("C08", "auto-detection scans for the second sync byte from the end of the window", "a 0x47 byte inside the first packet after offset 188+ (any size): wrong size detected"),
+    "C10-m3": ("C10", "computeCRC32 one-entry cache stores the caller's slice, not a copy", "the same buffer reused for two different sections (demux of sections of equal length read into one buffer / muxer scratch)"),
+    "C10-m4": ("C10", "block-buffered section checksum restarts at every 64-byte block", "any written section longer than 64 bytes"),
+    "C11-m3": ("C11", "WritePacket assembles the packet in the muxer's scratch buffer without resetting it on entry", "WritePacket after WriteData/WriteTables on the same Muxer: stale bytes precede the packet"),
+    "C11-m4": ("C11", "parsePacket no longer copies the payload of null packets", "PID 0x1fff with a payload"),
+    "C15-m3": ("C15", "writeDVBTime: time of day = Unix()%86400 (negative before 1970)", "any instant before 1970-01-01 that is not midnight"),
+    "C15-m4": ("C15", "parseDVBTime: MJD → Unix seconds multiplied in int32", "dates after 2038-01-19 or before 1901-12-13"),
+    "C16-m3": ("C16", "WritePacket pads the payload with append: 0xff written into the caller's spare capacity", "payload shorter than the room with cap > len"),
+    "C16-m4": ("C16", "every Muxer shares the backing array of a package-level default PMT stream list", "two Muxers alive at once, both adding streams: the second one's streams overwrite the first one's PMT"),
+    "C18-m3": ("C18", "any reader failure while re-aligning after auto-detection becomes ErrNoMorePackets", "plain (non-bufio, non-seeker) reader failing with its own error between byte 193 and byte 376"),
+    "C18-m4": ("C18", "written += n moved before the error check after writePacketAdaptationField", "writer failing inside an adaptation field: reported count exceeds bytes handed to the writer"),
+    "C20-m3": ("C20", "pool's last-accumulator shortcut not cleared by Rewind's in-place reset", "stream starting with PES packets of one PID and a Rewind right after a NextData triggered by that PID's PUSI packet"),
+    "C20-m4": ("C20", "Rewind replaces the program map after giving the old one to the new pool", "any Rewind followed by a full read: PMT PIDs not recognised as PSI until end-of-stream (order/values differ)"),
 }
 REVERTS = {
     "R01": "C12", "R02": "C14", "R03": "C14", "R04": "C18", "R05": "C17", "R06": "C04", "R07": "C11", "R08": "C05", "R09": "C06",
@@ -90,7 +111,7 @@ def main():
     rows = []
     for d in sorted(os.listdir(os.path.join(ROOT, "seeded"))):
         p = os.path.join(ROOT, "seeded", d)
-        if not os.path.isdir(p):
+        if not os.path.isfile(os.path.join(p, "patch.diff")):
             continue
         key = d
         if d in INFO:
